@@ -225,3 +225,13 @@ def c44_specs(thorough=False, seed=0):
     if thorough:
         s += [brick_norton(), implicit_norton("LevenbergMarquardt"), norton_rk("rk54"), implicit_norton("NewtonRaphson_NumericalJacobian")]
     return s
+
+
+def strain_measure_elasticity(measure, useqt="true"):
+    name = "VfElasticity" + measure
+    t = sub((TPL / "VfStrainMeasureElasticity.mfront.in").read_text(), NAME=name, MEASURE=measure, USEQT=useqt)
+    return spec(name, t, kind="strain_measure", measure=measure)
+
+
+def c55_specs(thorough=False, seed=0):
+    return [strain_measure_elasticity("GreenLagrange"), strain_measure_elasticity("Hencky")]
